@@ -3,6 +3,7 @@ package main
 import (
 	"fmt"
 	"go/token"
+	"strings"
 
 	"golang.org/x/tools/go/ssa"
 )
@@ -111,6 +112,24 @@ func c05(r *Run) {
 		r.absentf(" C05: only %d user-code points in the handler task", nPanicPts)
 	}
 
+	// `panicked` is the only thing that tells the deferred panic path that user code blew up: it is cleared only where no user
+	// code can run any more in this task (right before the task returns)
+	for _, st := range findIns(ro.task, func(i ssa.Instruction) bool {
+		s2, ok := i.(*ssa.Store)
+		if !ok {
+			return false
+		}
+		k, okc := constInt(s2.Val)
+		return okc && k == 0 && strings.Contains(pathOf(s2.Addr), "panicked")
+	}) {
+		ss := &Search{Fn: ro.task}
+		wit := ss.Find([]Start{After(st)}, func(i ssa.Instruction) bool {
+			_, isC := i.(*ssa.Call)
+			return isC && (px.May(i, "usercb") || px.May(i, "closecb"))
+		}, false)
+		s.Visited += ss.Visited
+		r.obW("C05.R2:panicked-cleared-only-at-exit", "the task clears its 'panicked' marker only where no user callback can run any more before it returns: cleared earlier, a panic in a later round is ignored by the deferred panic path - the processing lock stays held, the connection is never closed", ro.task, st, wit, "no user callback reachable after panicked = false")
+	}
 	// ---- R1/R2/R3 per call site of the callback runner ---------------------------------------
 	closed := closedFact(ro)
 	for _, site := range sites {
